@@ -523,7 +523,7 @@ class Frame:
                 return args[0]
             if name == "next" and args:
                 return self.elem(args[0])
-            if name == "not" and len(args) == 1 and f.startswith("core::ops::bit"):
+            if name == "not" and len(args) == 1 and f.startswith(("core::ops::bit", "anyhow::__private")):
                 if is_const(args[0]) and args[0][1] in (0, 1):
                     return ("c", 1 - args[0][1], None)
                 return ("un", "Not", args[0])
@@ -635,13 +635,13 @@ class Frame:
         if isinstance(d, tuple) and d and d[0] == "discr":
             inner = d[1]
             if isinstance(inner, tuple) and inner and inner[0] in ("elem",):
-                return ("loop", inner[1], tuple(vals), a)
+                return ("loop", inner[1], tuple(vals), a, self.body.id)
             # Try::branch result / Option / Result matches
             src = self._discr_source(t["d"])
             if src is not None:
-                return (src[0], src[1], tuple(vals), a)
-            return ("match", inner, tuple(vals), a)
-        return ("case", d, tuple(vals), a)
+                return (src[0], src[1], tuple(vals), a, self.body.id)
+            return ("match", inner, tuple(vals), a, self.body.id)
+        return ("case", d, tuple(vals), a, self.body.id)
 
     def _discr_source(self, op):
         """if the switch operand is the discriminant of a call result, name the call"""
